@@ -408,6 +408,8 @@ class Mode(LogMixin):
 
         # Clean up the mode handlers and devices
         self._remove_mode_event_handlers()
+        # delays added while the mode was stopping (e.g. by a delayed device control event) must not outlive it
+        self.delay.clear()
         self._remove_mode_devices()
 
         for callback in self.stop_callbacks:
